@@ -10,7 +10,9 @@ import (
 	"hzcheck/core"
 )
 
-func init() { register("C20", c20Ops, c20NoPanic, c20Fixpoint, c20Sorted, c20Pure) }
+func init() {
+	register("C20", c20Ops, c20NoPanic, c20Fixpoint, c20Sorted, c20Pure, c20CacheErr, c15CacheInfo)
+}
 
 const relTagexpr = "internal/tagexpr"
 
